@@ -168,7 +168,7 @@ class Ledger(object):
             o.check(eh[-1] == sn['bestE'] or (eh[-1] != eh[-1] and sn['bestE'] != sn['bestE']),
                     'c04:last history entry is the reported best energy', last=eh[-1], bestE=sn['bestE'], **ctx)
         o.check(sn['evals'] == self.probe.n, 'c04:evaluation counter equals the number of real cost calls', observed=sn['evals'], expected=self.probe.n,
-                de2_inf=cfg['solver'] == 'de2' and any((not math.isfinite(K.fnum(c[1]))) for c in self.probe.calls[-200:]),
+                inf_returns=sum(1 for c in self.probe.calls if not math.isfinite(K.fnum(c[1]))),
                 evalmon_kind=cfg.get('evalmon_kind'), **ctx)
         o.check(sn['gens'] == max(0, self.stepped - 1), 'c04:generation counter equals the number of completed iterations',
                 observed=sn['gens'], expected=max(0, self.stepped - 1), powell=cfg['solver'] == 'powell', **ctx)
